@@ -8,6 +8,9 @@ import (
 	"go/token"
 	"go/types"
 	"math/big"
+	"os"
+	"os/exec"
+	"path/filepath"
 	"sort"
 	"strings"
 
@@ -15,24 +18,26 @@ import (
 )
 
 type Obligation struct {
-	Name    string
-	Kind    string // post | pre | inv | nil | index | slice | div | assert | panic | typeassert | mapwrite | reach | lemma | frame
-	Func    string
-	Pos     token.Position
-	PC      []*Term
-	Goal    *Term
-	Clause  *Clause
-	Props   []string
-	Path    []int
-	Inputs  map[string]Value // named inputs for replay
-	Result  SolveResult
-	Query   string
-	Static  bool // decided without solver
-	StaticOK bool
-	Note    string
-	altPCs  [][]*Term
-	parts   []string
-	views   []pcView // cheaper views of the path condition tried before the full one (fewer assumptions: sound)
+	Name       string
+	Kind       string // post | pre | inv | nil | index | slice | div | assert | panic | typeassert | mapwrite | reach | lemma | frame
+	Func       string
+	Pos        token.Position
+	PC         []*Term
+	Goal       *Term
+	Clause     *Clause
+	Props      []string
+	Path       []int
+	Inputs     map[string]Value // named inputs for replay
+	Result     SolveResult
+	Query      string
+	Static     bool // decided without solver
+	StaticOK   bool
+	Note       string
+	altPCs     [][]*Term
+	parts      []string
+	views      []pcView // cheaper views of the path condition tried before the full one (fewer assumptions: sound)
+	frameGoal  *Term    // quantifier-free sufficient condition (proof by framing), tried first
+	frameQuery string
 }
 
 type pcView struct {
@@ -46,23 +51,24 @@ type pcView struct {
 type unsupported struct{ msg string }
 
 type Verifier struct {
-	e        *Engine
-	fn       *ssa.Function
-	fc       *FuncContract
-	key      string
-	obs      []*Obligation
-	paths    int
-	ends     int
-	counters map[string]int
-	unsup    []string
-	reachRet map[ssa.Instruction][][]*Term // return/backedge instruction -> path conditions reaching it
-	inputs   map[string]Value
-	entry    *State
-	tooMany  bool
-	obKeySeen map[string]int
-	callOrd   map[*ssa.Call]int
-	callNames map[*ssa.Call]string
-	allCalls  []*ssa.Call
+	e                   *Engine
+	fn                  *ssa.Function
+	fc                  *FuncContract
+	key                 string
+	obs                 []*Obligation
+	paths               int
+	ends                int
+	counters            map[string]int
+	unsup               []string
+	reachRet            map[ssa.Instruction][][]*Term // return/backedge instruction -> path conditions reaching it
+	inputs              map[string]Value
+	entry               *State
+	tooMany             bool
+	obKeySeen           map[string]int
+	callOrd             map[*ssa.Call]int
+	callNames           map[*ssa.Call]string
+	allCalls            []*ssa.Call
+	pruneChecks, pruned int
 }
 
 func (e *Engine) NewVerifier(fn *ssa.Function, fc *FuncContract) *Verifier {
@@ -105,6 +111,12 @@ func (v *Verifier) oblige(st *State, kind, label string, goal *Term, p token.Pos
 	if byAssumption {
 		ob.Static, ob.StaticOK, ob.Note = true, true, "by assumption"
 		ob.PC = nil
+	} else if hasQuantifier(goal) {
+		// the goal may be an earlier assumption carried over stores elsewhere: then a quantifier-free
+		// frame condition suffices (tried first; the full goal remains as fallback)
+		if side := tryFrame(st.pc, goal); side != nil {
+			ob.frameGoal = side
+		}
 	}
 	if v.fc != nil {
 		ob.Props = v.fc.Props
@@ -147,6 +159,13 @@ func (v *Verifier) oblige(st *State, kind, label string, goal *Term, p token.Pos
 			if pc := filter(nil, true); pc != nil {
 				ob.views = append(ob.views, pcView{label: "qf", pc: pc, budget: 2})
 			}
+			if cl != nil && cl.Label != "" && hasQuantifier(goal) {
+				// quantified facts carrying the clause's own label (e.g. the same invariant assumed
+				// earlier, or a callee's "inv-<label>" postcondition) usually suffice
+				if pc := filter(toSet([]string{cl.Label, "inv-" + cl.Label, "append"}), false); pc != nil {
+					ob.views = append(ob.views, pcView{label: "same-label", pc: pc})
+				}
+			}
 			if v.fc != nil && len(v.fc.AutoUse) > 0 {
 				if pc := filter(toSet(v.fc.AutoUse), false); pc != nil {
 					ob.views = append(ob.views, pcView{label: "autouse", pc: pc})
@@ -175,6 +194,7 @@ func (v *Verifier) Run() (err error) {
 	if len(fn.Blocks) == 0 {
 		v.fail("function %s has no body", v.key)
 	}
+	v.e.registerAllocTypes(fn)
 	st := &State{e: v.e, mem: map[Kind]*Term{}, maps: map[string]*Term{}, clos: map[string]*closureVal{}, held: map[string]*heldLock{}, nonnil: map[string]bool{}}
 	st.next = v.e.sy.Fresh("next0", SInt)
 	st.assume(Gt(st.next, IntLit(0)))
@@ -186,6 +206,7 @@ func (v *Verifier) Run() (err error) {
 		fr.entryParams[p.Name()] = val
 		v.inputs[p.Name()] = val
 	}
+	var fvBlks []*Term
 	for _, fv := range fn.FreeVars {
 		val := st.freshValue("fv_"+fv.Name(), fv.Type())
 		fr.regs[fv] = val
@@ -195,9 +216,28 @@ func (v *Verifier) Run() (err error) {
 			st.nonnil[val.L[0].String()] = true
 		}
 		v.inputs["fv:"+fv.Name()] = val
+		// every captured variable is its own heap allocation of its own type
+		if isPointerShaped(fv.Type()) {
+			st.assume(Eq(v.e.btype(val.L[0]), v.e.allocTypeID(derefType(fv.Type()))))
+			st.assume(Eq(val.L[1], IntLit(0)))
+			fvBlks = append(fvBlks, val.L[0])
+			// captured variables are not read by any monitor invariant: writes to them keep critical sections clean
+			if st.local == nil {
+				st.local = map[string]bool{}
+			}
+			st.local[val.L[0].String()] = true
+		}
+	}
+	if len(fvBlks) > 1 {
+		st.assume(Distinct(fvBlks...))
 	}
 	st.entry = st.snapshot()
 	v.entry = st.entry
+	// value invariants of the receiver's type hold on entry (they are checked wherever such a value
+	// is turned into an interface value)
+	if fn.Signature.Recv() != nil && len(fn.Params) > 0 {
+		v.valueInvariants(st, fr.regs[fn.Params[0]], fn.Params[0].Type(), true, fn.Pos())
+	}
 	// preconditions
 	if v.fc != nil {
 		env := v.entryEnv(st)
@@ -257,6 +297,10 @@ func (v *Verifier) enterBlock(st *State, from, to *ssa.BasicBlock) {
 		v.assertLoopInv(st, li, "entry")
 		v.havocLoop(st, li)
 		v.assumeLoopInv(st, li)
+		if st.loopBasePending {
+			st.loopBasePending = false
+			st.loopBase = st.snapshot()
+		}
 		v.execFrom(st, to, v.firstNonPhi(to))
 		return
 	}
@@ -440,7 +484,7 @@ func (v *Verifier) execFrom(st *State, b *ssa.BasicBlock, idx int) {
 			ref := st.allocBlock()
 			v.setReg(st, ins, Value{T: ins.Type(), L: []*Term{ref}})
 		case *ssa.MakeInterface:
-			v.setReg(st, ins, v.makeInterface(st, v.eval(st, ins.X), ins.X.Type(), ins.Type()))
+			v.setReg(st, ins, v.makeInterface(st, v.eval(st, ins.X), ins.X.Type(), ins.Type(), ins.Pos()))
 		case *ssa.MakeClosure:
 			v.doMakeClosure(st, ins)
 		case *ssa.ChangeType:
@@ -513,12 +557,29 @@ func (v *Verifier) execFrom(st *State, b *ssa.BasicBlock, idx int) {
 			case cond.IsFalse():
 				v.enterBlock(st, b, b.Succs[1])
 			default:
-				v.countPath()
-				st2 := st.clone()
-				st.assume(cond)
-				st2.assume(Not(cond))
-				v.enterBlock(st, b, b.Succs[0])
-				v.enterBlock(st2, b, b.Succs[1])
+				// prune branches whose path condition is already contradictory (quantifier-free check)
+				okT, okF := true, true
+				if v.paths >= 2 {
+					okT = v.feasible(st, cond)
+					if okT {
+						okF = v.feasible(st, Not(cond))
+					}
+				}
+				switch {
+				case okT && okF:
+					v.countPath()
+					st2 := st.clone()
+					st.assume(cond)
+					st2.assume(Not(cond))
+					v.enterBlock(st, b, b.Succs[0])
+					v.enterBlock(st2, b, b.Succs[1])
+				case okT:
+					st.assume(cond)
+					v.enterBlock(st, b, b.Succs[0])
+				default:
+					st.assume(Not(cond))
+					v.enterBlock(st, b, b.Succs[1])
+				}
 			}
 			return
 		case *ssa.Jump:
@@ -1154,12 +1215,13 @@ func (v *Verifier) zeroBlock(st *State, blk *Term, elem types.Type) {
 	}
 }
 
-func (v *Verifier) makeInterface(st *State, x Value, from, to types.Type) Value {
+func (v *Verifier) makeInterface(st *State, x Value, from, to types.Type, ipos token.Pos) Value {
 	tid := IntLit(int64(v.e.typeID(from)))
 	if x.cell != nil {
 		v.fail("cell pointer converted to interface")
 	}
 	v.escapeValue(st, x)
+	v.valueInvariants(st, x, from, false, ipos)
 	if _, isIface := from.Underlying().(*types.Interface); isIface {
 		return Value{T: to, L: x.L}
 	}
@@ -1348,7 +1410,6 @@ func (v *Verifier) doReturn(st *State, r *ssa.Return) {
 	v.endPath(st, r, true)
 }
 
-
 // markHeld: a top-level conjunct held(mu) in a requires clause of the function
 // under proof establishes that the lock is held at entry.
 func (v *Verifier) markHeld(st *State, env *Env, e CExpr) {
@@ -1463,4 +1524,75 @@ func (v *Verifier) escapeValue(st *State, val Value) {
 			}
 		}
 	}
+}
+
+// valueInvariants asserts (or assumes) the declared invariants of a value type and of the struct
+// types embedded in it by value. Types with guarded_by clauses are monitors and handled at lock
+// operations instead.
+func (v *Verifier) valueInvariants(st *State, val Value, t types.Type, assume bool, p token.Pos) {
+	if val.cell != nil {
+		return
+	}
+	base := t
+	if pt, ok := t.Underlying().(*types.Pointer); ok {
+		base = pt.Elem()
+	}
+	named, ok := base.(*types.Named)
+	if !ok {
+		return
+	}
+	stt, isStruct := named.Underlying().(*types.Struct)
+	if tc := v.e.ct.Types[typeKey(named)]; tc != nil && len(tc.GuardedBy) == 0 && len(tc.Invariant) > 0 {
+		env := &Env{v: v, vars: map[string]Value{"self": val}, pkgPath: tc.PkgPath, old: st.entry}
+		for i, cl := range tc.Invariant {
+			tm := v.evalBoolIn(st, env, cl)
+			if assume {
+				st.assumeTagged(tm, cl.Label)
+			} else {
+				v.oblige(st, "inv", fmt.Sprintf("%s:%s@interface-conversion", named.Obj().Name(), clauseLabel(cl, i)), tm, p, cl)
+			}
+		}
+	}
+	if !isStruct || isPointerShaped(t) {
+		return
+	}
+	for i := 0; i < stt.NumFields(); i++ {
+		f := stt.Field(i)
+		if !f.Embedded() {
+			continue
+		}
+		if _, isPtr := f.Type().Underlying().(*types.Pointer); isPtr {
+			continue
+		}
+		off := v.e.lay.FieldOff(stt, i)
+		n := v.e.lay.Size(f.Type())
+		v.valueInvariants(st, val.sub(off, n, f.Type()), f.Type(), assume, p)
+	}
+}
+
+// feasible: false only if the quantifier-free part of the path condition together with cond is
+// unsatisfiable (so the branch can be skipped: every obligation on it would hold vacuously).
+func (v *Verifier) feasible(st *State, cond *Term) bool {
+	var pc []*Term
+	for _, t := range st.pc {
+		if !hasQuantifier(t) {
+			pc = append(pc, t)
+		}
+	}
+	pc = append(pc, cond)
+	q := v.e.sy.Query(v.e.stringAxiomsFor(pc), pc, nil, false)
+	v.pruneChecks++
+	file := filepath.Join(v.e.opts.WorkDir, fmt.Sprintf("feas_%d.smt2", v.pruneChecks))
+	if err := os.WriteFile(file, []byte(q), 0o644); err != nil {
+		return true
+	}
+	out, _ := exec.Command("z3", "-T:1", file).Output()
+	if !v.e.opts.Keep {
+		os.Remove(file)
+	}
+	if strings.HasPrefix(string(out), "unsat") {
+		v.pruned++
+		return false
+	}
+	return true
 }
